@@ -29,22 +29,34 @@ Lemma bundled_count : Z.of_nat (length bundled_zones) = bundled_zone_count /\
   fold_right (fun z acc => nZ z + acc) 0 bundled_zones = bundled_transition_count.
 Proof. split; vm_compute; reflexivity. Qed.
 
-(* The zoned date round trip fails on the unchanged code: Australia/Sydney, 2024-10-06 (day 20002).  DST starts
-   at 02:00 local on that date, i.e. between local midnight (14:00 UTC the day before) and UTC midnight, and
-   date_to_ts takes the offset in effect at UTC midnight (+11:00) although local midnight still has +10:00:
-   the result is 2024-10-05 23:00 local. *)
+Theorem all_zones_date_ok : forallb zone_date_ok bundled_zones = true.
+Proof. vm_cast_no_check (eq_refl true). Qed.
+
+Lemma bundled_zone_date_ok : forall z, In z bundled_zones -> zone_date_ok z = true.
+Proof. intros z Hin. pose proof all_zones_date_ok as H. rewrite forallb_forall in H. apply H. exact Hin. Qed.
+
+(* Regression example for fix 8feac94 (known finding C34-date-to-ts-zone-offset): Australia/Sydney, 2024-10-06
+   (day 20002; DST starts at 02:00 local that day).  The old code returned 2024-10-05 23:00 local. *)
 Lemma sydney_date_example :
   let t := date_to_ts_zone 0 20002 tz_Australia_Sydney in
-  adt_date (ts_to_dt 0 t tz_Australia_Sydney) = 20001 /\
-  dt_local (ts_to_dt 0 t tz_Australia_Sydney) = date_to_ts 20002 - 3600000 * TICKS_PER_MS.
-Proof. split; vm_compute; reflexivity. Qed.
+  date_exists tz_Australia_Sydney 20002 = true /\
+  adt_date (ts_to_dt 0 t tz_Australia_Sydney) = 20002 /\
+  dt_local (ts_to_dt 0 t tz_Australia_Sydney) = date_to_ts 20002.
+Proof. repeat split; vm_compute; reflexivity. Qed.
 
-Lemma date_zone_refuted : exists z d, In z bundled_zones /\
-  adt_date (ts_to_dt 0 (date_to_ts_zone 0 d z) z) <> d.
+(* A date that does not exist: Kwajalein skipped 1993-08-21 (day 8633) when it moved across the date line
+   (-12:00 -> +12:00).  No instant has that local date, in particular there is no local midnight of it. *)
+Lemma kwajalein_skipped_day :
+  date_exists tz_Kwajalein 8633 = false /\
+  (forall oob ts, adt_date (ts_to_dt oob ts tz_Kwajalein) <> 8633) /\
+  (forall oob ts, dt_local (ts_to_dt oob ts tz_Kwajalein) <> date_to_ts 8633).
 Proof.
-  assert (H : existsb (fun z => negb (adt_date (ts_to_dt 0 (date_to_ts_zone 0 20002 z) z) =? 20002)) bundled_zones = true)
-    by (vm_compute; reflexivity).
-  apply existsb_exists in H. destruct H as [z [Hin Hne]].
-  exists z, 20002. split; [exact Hin|].
-  apply negb_true_iff in Hne. apply Z.eqb_neq in Hne. exact Hne.
+  assert (Hok : zone_ok tz_Kwajalein = true) by (vm_compute; reflexivity).
+  assert (Hne : date_exists tz_Kwajalein 8633 = false) by (vm_compute; reflexivity).
+  split; [exact Hne|]. split.
+  - intros oob ts Heq. rewrite (date_exists_complete _ Hok oob 8633 ts Heq) in Hne. discriminate.
+  - intros oob ts Heq.
+    assert (Hd : adt_date (ts_to_dt oob ts tz_Kwajalein) = 8633).
+    { unfold adt_date. rewrite Heq. apply date_roundtrip. }
+    rewrite (date_exists_complete _ Hok oob 8633 ts Hd) in Hne. discriminate.
 Qed.
